@@ -137,6 +137,11 @@ func Harness_C18_CompactStep() {
 			return []*Table{mk(ks, false)}
 		case 2:
 			pair := [][2][]int{{{0}, {1}}, {{0, 1}, {2}}, {{0}, {1, 2}}, {{0}, {2}}, {{1}, {2}}}[verif.Choose("run2", 2+3*rich)]
+			if verif.Choose("newest-entries-in-the-first-table-of-the-run", 2) == 1 {
+				// a compacted run is in key order, not in sequence order
+				second := mk(pair[1], false)
+				return []*Table{mk(pair[0], false), second}
+			}
 			return []*Table{mk(pair[0], false), mk(pair[1], false)}
 		}
 		return nil
